@@ -1072,6 +1072,36 @@ func c19Decimal(eng *c19Engine, c Case, res *Result) {
 	if got == "-0" && f != "number_format" {
 		got = "0"
 	}
+	// the same number written as a literal in the template
+	if m, sc := c.num("m"), c.num("sc"); sc >= 0 && sc <= 15 && class == "ok" {
+		neg := m < 0
+		if neg {
+			m = -m
+		}
+		digits := strconv.Itoa(m)
+		for len(digits) <= sc {
+			digits = "0" + digits
+		}
+		lit := digits
+		if sc > 0 {
+			lit = digits[:len(digits)-sc] + "." + digits[len(digits)-sc:]
+		}
+		if neg {
+			lit = "(-" + lit + ")"
+		}
+		tpl := strings.Replace(c19Template(f, len(args), "scalar"), "{{ v|", "{{ "+lit+"|", 1)
+		res.Evaluations++
+		res.Hist["decimal-written-as-a-literal"]++
+		gl, lclass, _ := eng.render(tpl, ctx)
+		if gl == "-0" && f != "number_format" {
+			gl = "0"
+		}
+		if lclass != "ok" || gl != got {
+			c19Add(res, Finding{Kind: "oracle", Where: f + "/decimal-literal", Case: c, Expected: got, Observed: lclass + ":" + gl,
+				Detail: "the number written as the literal " + lit + " in the template gives another result than the same number handed over in the context: " + tpl})
+			return
+		}
+	}
 	// the same through the direct call
 	out, dclass, _ := c19Call(f, v, args)
 	direct := c19Text(out)
